@@ -19,7 +19,7 @@ def load_check(prop):
 class Ctx:
     def __init__(self, prop, tier, seed, shard, nshards):
         self.prop, self.tier, self.seed, self.shard, self.nshards = prop, tier, seed, shard, nshards
-        self.scratch = None
+        self.scratch = os.getcwd()
 
 
 def _exc_fail(e):
